@@ -19,10 +19,10 @@ import time
 from vf.core import Check, HarnessError
 from vf.props import c01
 
-MODULES = ["Model.Expr", "Model.Gen", "Model.Pretty", "Generated.C07", "Proofs.Pretty", "Properties.C07"]
+MODULES = ["Model.Expr", "Model.Gen", "Model.Pretty", "Model.Engine", "Generated.C07", "Proofs.Pretty", "Properties.C07"]
 P = "SqlglotModel.Properties.C07."
 THEOREMS = [P + n for n in ["indent_ws_only", "sep_seg_ws_only", "wrap_ws_only", "expressions_ws_only", "expressions_empty_item_witness",
-                            "generated_sentinel_chain_ok", "generated_surgery_sites_audited", "embed_before_paren_comment_independent", "embed_rfind_counterexample", "sentinel_absent_in_output", "sentinel_absent_in_output_old", "sentinel_lowercased_survives", "doc_render_ws_only", "sentinel_roundtrip",
+                            "generated_sentinel_chain_ok", "generated_surgery_sites_audited", "athena_engine_model_matches_source", "generated_athena_ctas_engines_agree", "athena_unwrapped_only_variant_witness", "embed_before_paren_comment_independent", "embed_rfind_counterexample", "sentinel_absent_in_output", "sentinel_absent_in_output_old", "sentinel_lowercased_survives", "doc_render_ws_only", "sentinel_roundtrip",
                             "sentinel_in_literal_changes_value", "sentinel_overlap_changes_value", "sanitize_comment_examples"]]
 SENT = "__SQLGLOT__LB__"
 
@@ -140,16 +140,23 @@ def translate(chk: Check) -> str:
     chk.cov["sentinel_replace_chain"] = chain
     sites = surgery_sites(chk)
     chk.cov["string_surgery_sites"] = len(sites)
+    shapes = c01.athena_shape_table(chk)     # both engine decisions of the REAL athena code, one sample per statement shape
+    chk.cov["athena_engine_shapes"] = len(shapes)
+    bl = lambda x: "true" if x else "false"  # noqa
 
     def chars(t):
         return "[" + ", ".join("Char.ofNat %d" % ord(c) for c in t) + "]"
 
-    return ("-- GENERATED by vf/props/c07.py from sqlglot/generator.py (Generator.generate, the replace chain under `if self.pretty`). Do not edit.\n"
+    return ("-- GENERATED by vf/props/c07.py from sqlglot/generator.py, sqlglot/generators/*.py, sqlglot/dialects/athena.py. Do not edit.\n"
+            "import SqlglotModel.Model.Engine\n"
             "namespace SqlglotModel.Generated.C07\n"
             "def sentinelChain : List (List Char) := [" + ", ".join(chars(t) for t in chain) + "]\n"
             "/-- generator methods doing position-dependent string surgery on rendered text: (file, method, operation) -/\n"
             "def surgerySites : List (String × String × String) := [" + ", ".join(
                 "(" + ", ".join(json.dumps(x) for x in t) + ")" for t in sites) + "]\n"
+            "/-- athena: (shape name, shape, `_tokenize_as_hive` on the sample's tokens, `_generate_as_hive` on its parse) -/\n"
+            "def athenaShapes : List (String × SqlglotModel.Engine.Shape × Bool × Bool) := [" + ", ".join(
+                f"({json.dumps(n)}, ⟨.{f}, .{k}, {bl(o)}, .{bd}, {bl(ns)}⟩, {bl(t)}, {bl(g)})" for n, f, k, o, bd, ns, t, g in shapes) + "]\n"
             "end SqlglotModel.Generated.C07\n")
 
 
@@ -489,6 +496,12 @@ COMMENT_TEMPLATES = [
     "INSERT INTO t /* {c} */ VALUES (1 /* {c} */) /* {c} */",
     "ALTER TABLE t /* {c} */ ADD COLUMN c INT /* {c} */",
 ]
+# the same Query kinds with engine-neutral spelling, so that the DEFAULT output is readable by either engine and only the
+# option under test (identify / pretty) decides
+ENGINE_SIMPLE = ["CREATE TABLE foo AS (SELECT a FROM b)", "CREATE TABLE foo AS (SELECT a FROM b UNION SELECT c FROM d)",
+                 "CREATE TABLE foo AS SELECT a FROM b UNION SELECT c FROM d", "CREATE TABLE foo AS SELECT a FROM b EXCEPT SELECT c FROM d",
+                 "CREATE TABLE foo AS WITH c AS (SELECT a FROM b) SELECT * FROM c", "CREATE TABLE foo AS SELECT * FROM (SELECT a FROM b) AS s",
+                 "CREATE TABLE IF NOT EXISTS foo AS (SELECT a FROM b)", "CREATE VIEW v AS (SELECT a FROM b)", "INSERT INTO foo (SELECT a FROM b)"]
 OPT_SWEEP = [
     {"pretty": True, "pad": 2, "indent": 2, "max_text_width": 20}, {"pretty": True, "pad": 0, "indent": 4, "max_text_width": 1, "leading_comma": True},
     {"comments": False}, {"identify": True}, {"identify": "safe"}, {"normalize_functions": "lower"}, {"normalize_functions": False},
@@ -520,7 +533,7 @@ def search(chk: Check, budget_s: float) -> None:
             o["normalize_functions"] = rng.choice(["upper", "lower", False])
         return o
 
-    def consider(m, d, opts, read=None):
+    def consider(m, d, opts, read=None, label=None):
         nonlocal tried, found
         tried += 1
         s = c01.unmark(m)
@@ -541,7 +554,8 @@ def search(chk: Check, budget_s: float) -> None:
             if v3 and v3[0] == v[0]:
                 read = None
         v2 = verdict(small, d, opts, read) or v
-        key = v2[0] + ":" + opt_key(opts) + ":" + skeleton(small, d if read is None else read).replace("__SQLGLOT__LB__", "SENTINEL")
+        key = (v2[0] + ":" + opt_key(opts) + ":" + (label + ":" if label else "")
+               + skeleton(small, d if read is None else read).replace("__SQLGLOT__LB__", "SENTINEL"))
         if SENT in small or "__SQLGLOT__LB_" in small:
             key = v2[0] + ":text-contains-sentinel-prefix"
         chk.report_violation(key, f"[{d or 'base'}{'' if read is None else ' <- ' + (read or 'base')}] {v2[1]}",
@@ -592,6 +606,15 @@ def search(chk: Check, budget_s: float) -> None:
                     consider(src, d, dict(o))
     chk.cov["comment_structure_sweep"] = {"templates": len(COMMENT_TEMPLATES), "comment_texts": len(ctexts), "option_sets": len(csets),
                                           "wall_s": round(time.time() - t1, 1)}
+    # dialects with an engine / mode switch: the generator-side engine applies the options, the tokenizer-side engine re-reads
+    # the output; every Query kind as CTAS / VIEW / INSERT body under the options that change spelling per engine
+    msd = c01.mode_switch_dialects()
+    chk.cov["mode_switch_dialects"] = msd
+    eopts = [{"identify": True}, {"identify": "safe"}, {"pretty": True}, {"pretty": True, "identify": True, "comments": False}]
+    for d in msd:
+        for src in list(c01.engine_templates()) + ENGINE_SIMPLE:
+            for o in eopts:
+                consider(src, d, dict(o), None, "engine")
     # the DDL / DML subset: every template x every dialect x the option sweep, read in the target dialect and in the base dialect
     t1 = time.time()
     for s in DDL_TEMPLATES:
